@@ -725,6 +725,10 @@ class EventBus:
     def _start(self) -> None:
         """Start the event bus if not already running"""
         if not self._is_running:
+            if self.event_queue is not None and self.event_queue._is_shutdown:  # pyright: ignore[reportPrivateUsage]
+                # stop() shut the queue down: a stopped bus stays stopped. Starting a new run loop on the dead queue would
+                # first run events left in it after stop() returned and then poll it in a busy loop forever
+                return
             try:
                 loop = asyncio.get_running_loop()
 
@@ -980,8 +984,11 @@ class EventBus:
                 # all remaining tasks at exit). Swallowing that would keep the loop polling forever and hang the exit
                 raise
             return False
-        except (RuntimeError, QueueShutDown):
-            # Clean cancellation during shutdown or queue was shut down
+        except QueueShutDown:
+            # Queue was shut down by stop(): let the run loop exit instead of polling a dead queue
+            raise
+        except RuntimeError:
+            # Clean cancellation during shutdown
             return False
 
     async def step(
